@@ -55,10 +55,10 @@ def read_nc(path):
     return out
 
 
-def base_input(seed, nmem=0, nt=3, nl=4):
-    locs = gen.std_locs(2, seed)
+def base_input(seed, nmem=0, nt=3, nl=4, nloc=2):
+    locs = gen.std_locs(2, seed) if nloc == 2 else [(100 + 3 * i, 40.0 + i, -120.0 + i, 100.0 * i) for i in range(nloc)]
     times = [T0 + i * DAY for i in range(nt)]
-    leads = [0.0, 6.0, 12.0, 18.0][:nl]
+    leads = [0.0, 6.0, 12.0, 18.0][:nl] if nl <= 4 else [float(i) for i in range(nl)]
     ai = gen.AInput("in", times, leads, locs, variable="Precip", units="mm")
     vals = gen.unique_values(seed, 200)
     k = 0
@@ -109,9 +109,18 @@ def h_accumulate(ctx):
     w = ctx.choose("-w", (None, 1, 2, 3, 4, 5), free=True)
     axis = ctx.choose("-x", ("leadtime", "time"), free=True)
     ign = ctx.choose_bool("-i", free=True)
-    ai = base_input(seed)
+    size = ctx.choose("file-size", ("small", "8x48x6"), free=True) if ctx.params.get("sizes") else "small"
+    if size == "small":
+        ai = base_input(seed)
+        cells = ai.positions()[::2]
+    else:
+        # a file of ordinary size (the summation must not depend on how large the arrays are)
+        via = "nc"
+        ai = base_input(seed, nt=8, nl=48, nloc=6)
+        cells = [(2, 5, 1), (7, 47, 5), (0, 0, 0), (4, 20, 3)]
+        ctx.flag("ordinary-size")
     for f in ("obs", "fcst"):
-        for pos in ai.positions()[::2]:
+        for pos in cells:
             if ctx.choose_bool("miss:%s:%r" % (f, pos)):
                 del ai.fields[f][pos]
     src = write_input(ai, via, "c20acc")
@@ -353,7 +362,7 @@ def h_expand(ctx):
 
 def plan(tier):
     q = tier == "quick"
-    return [("accumulate", h_accumulate, {}, "dev", 1 if q else 2),
+    return [("accumulate", h_accumulate, {"sizes": True}, "dev", 1 if q else 2),
             ("ens2prob", h_ens2prob, {"thr": ordered_selections([1.0, 2.0, 5.0], 2) + [(5.0, 0.0, 2.0)] if q else ordered_selections([0.0, 1.0, 2.0, 5.0], 3),
                           "qs": ordered_selections([0.0, 0.5, 1.0], 2) + [(0.25, 0.75), (0.75, 0.25)] if q else ordered_selections([0.0, 0.25, 0.5, 0.75, 1.0], 2) + [(0.75, 0.25, 0.5), (0.0, 1.0, 0.5)]}, "dev", 1 if q else 2),
             ("expandverif", h_expand, {}, "dev", 1)]
@@ -370,7 +379,7 @@ def run(tier, only=None):
                  "ens2prob": "full {text,nc} x 1-3 members x ordered threshold selections x ordered level selections x -p, dev(%d) over missing obs/member/fcst" % k,
                  "expandverif": "full {text,nc} x 9 -i lists x 36 -lt lists (ascending subsets and permuted / descending ones) x 2 input init hours x {ascending, descending, rotated} input time axis of three days, dev(1) missing obs"}[name]
         subs.append(core.Sub.from_e1(name, st, bound=bound, rule="one execution = one script run, every output cell compared with the reference transformation",
-                                     required_flags=("pit-missing-obs", "decimal-tie") if name == "ens2prob" else (), wall=time.time() - t0))
+                                     required_flags=("pit-missing-obs", "decimal-tie") if name == "ens2prob" else ("ordinary-size",) if name == "accumulate" else (), wall=time.time() - t0))
     return subs
 
 
